@@ -60,9 +60,15 @@ def cases(desc):
             continue
         r = rand.rng(seed, "c16", j)
         size = r.choice([r.randint(2, 40), r.randint(40, 400), r.randint(400, 2000)])
-        yield "random", rand.rand_model(r, size, group_kinds=("alternative", "or", "mutex", "cardinality", "dead"),
-                                        solitary_kinds=("mandatory", "optional", "dead"),
-                                        profile=r.choice(["mixed", "deep", "wide"])), None
+        spec = rand.rand_model(r, size, group_kinds=("alternative", "or", "mutex", "cardinality", "dead"),
+                               solitary_kinds=("mandatory", "optional", "dead"),
+                               profile=r.choice(["mixed", "deep", "wide"]))
+        if j % 2 == 0:
+            # feature cardinalities (clonable features) are not relation cardinalities: no tree operation looks at them
+            fs = list(S.features(spec["root"]))
+            for f in r.sample(fs, max(1, len(fs) // 4)):
+                f["fcard"] = r.choice([[0, 3], [0, 1], [2, 5], [0, -1], [1, -1], [3, 3]])
+        yield "random", spec, None
     files = [(p, s) for p, s in corpus.fama_files() if (s or 0) <= desc["corpus_max"]]
     for j, (p, s) in enumerate(files):
         if j % n == i:
@@ -234,6 +240,44 @@ def history_move_ancestor(acc, spec, payload):
         acc.held("history:ancestor-moved", None)
 
 
+def history_recreated_parent(acc, spec, payload):
+    """History: a compound feature is replaced by a re-created Feature object of the SAME NAME (e.g. to change its
+    flags) and its children are moved below the new object with add_relation; then everything is analysed."""
+    from flamapy.metamodels.fm_metamodel.models import Feature, Relation
+    r = rand.rng("c16-recreate", S.digest(spec))
+    model = S.build(spec)
+    par, objs = {}, []
+    stack = [model.root]
+    while stack:
+        f = stack.pop()
+        objs.append(f)
+        for rel in f.relations:
+            for c in rel.children:
+                par[id(c)] = f
+                stack.append(c)
+    cands = [f for f in objs if f.relations and id(f) in par]
+    if not cands:
+        return
+    x = r.choice(cands)
+    new = Feature(x.name, [], is_abstract=not x.is_abstract)
+    for rel in list(x.relations):
+        new.add_relation(Relation(new, list(rel.children), rel.card_min, rel.card_max))
+    x.relations = []
+    p = par[id(x)]
+    for rel in p.relations:
+        for k, c in enumerate(rel.children):
+            if c is x:
+                rel.children[k] = new
+    new.parent = p
+    import copy
+    es = copy.deepcopy(spec)
+    for fs in S.features(es["root"]):
+        if fs["name"] == x.name:
+            fs["abstract"] = not fs.get("abstract", False)
+    judge(acc, "history:parent-recreated-under-the-same-name", es, model, "history:parent-recreated-under-the-same-name",
+          dict(payload, history=f"{x.name} re-created, children moved below the new object"))
+
+
 def under_decimal_contexts(acc, spec, model, payload):
     """The operations are functions of the model: the thread's decimal context (precision, traps) must not
     change a result."""
@@ -285,6 +329,7 @@ def run_case(acc, source, spec, path):
     if nfeat <= 400 and (path is None or nfeat <= 100) and S.digest(spec)[0] in "0123":
         under_decimal_contexts(acc, spec, model, payload)
         history_move_ancestor(acc, spec, payload)
+        history_recreated_parent(acc, spec, payload)
         history_reparent(acc, source, spec, model, payload)
 
 
